@@ -60,6 +60,19 @@ PAYLOADS = [
     {"doc": {"x": {"y": [1, 2.5, None]}, "é": "ü"}, "files": [[["data.txt"], b"hello\n".hex()]]},
     {"doc": {"d": 1}, "files": [[["sub", "x.bin"], bytes(range(0, 256, 5)).hex()], [["a.txt"], ""]]},
 ]
+# payloads with symbolic links (entry = [rel, hex of the content read through the link, kind, target rel]): relative and
+# outside targets survive the rename of the job directory; an ABSOLUTE target inside the job (job.fn(...)) does not (that
+# is the file system, not signac), so it is only used for the clone routes (LINK_PAYLOADS_CLONE)
+_H = b"hello\n".hex()
+LINK_PAYLOADS = [
+    {"doc": {"d": 1}, "files": [[["data.txt"], _H], [["l_rel"], _H, "rel", ["data.txt"]]]},
+    {"doc": {}, "files": [[["sub", "x.bin"], "00ff"], [["l_out"], b"outside".hex(), "out", []]]},
+    {"doc": {"d": 1}, "files": [[["data.txt"], _H], [["sub", "l_up"], _H, "rel", ["data.txt"]], [["l_out"], "0102", "out", []]]},
+]
+LINK_PAYLOADS_CLONE = LINK_PAYLOADS + [
+    {"doc": {"d": 1}, "files": [[["data.txt"], _H], [["l_abs"], _H, "abs", ["data.txt"]]]},
+    {"doc": {}, "files": [[["sub", "x.bin"], "00ff"], [["l_rel"], "00ff", "rel", ["sub", "x.bin"]], [["sub", "l_abs"], "00ff", "abs", ["sub", "x.bin"]]]},
+]
 DPAY = {"doc": {"dest": True}, "files": [[["keep.txt"], b"dest data".hex()]]}
 HANDLE_CONFIGS = [   # (prov, access, shallow, deep, pickle)
     ("PInit", False, 1, True, True),
@@ -191,7 +204,14 @@ def all_pairs():
             yield old, r
 
 
-def make_desc(old, route, dest, cfg, pay, pre=False):
+def pick_pay(rng, route):
+    """a third of the payloads carry symbolic links"""
+    if rng.random() < 0.35:
+        return rng.choice(LINK_PAYLOADS_CLONE if route[0] == "clone" else LINK_PAYLOADS)
+    return rng.choice(PAYLOADS)
+
+
+def make_desc(old, route, dest, cfg, pay, pre=False, pv=None):
     prov, access, shallow, deep, pickle_ = cfg
     new = spec_new(route, old)
     from_uninit = prov == "PUninit"
@@ -206,7 +226,7 @@ def make_desc(old, route, dest, cfg, pay, pre=False):
         if calc_id(new) == calc_id(old):
             dest = "DAbsent"
     return {"old": typed(old), "route": route, "dest": dest, "prov": prov, "access": access,
-            "shallow": shallow, "deep": deep, "pickle": pickle_, "pay": pay, "dpay": DPAY, "pre": bool(pre)}
+            "shallow": shallow, "deep": deep, "pickle": pickle_, "pay": pay, "dpay": DPAY, "pre": bool(pre), "pv": pv}
 
 
 WITNESSES = [   # the inputs of the ..._refuted / ..._example theorems of props/C04.v, replayed on the real code in every run
@@ -251,18 +271,22 @@ def gen_inputs(tier, rng):
         # half of the cases read id / path / cached_statepoint / repr of the handle and its shallow copies BEFORE the
         # operation as well
         for old, r, dest, cfg in chosen:
-            descs.append(make_desc(old, r, dest, cfg, rng.choice(PAYLOADS), pre=rng.random() < 0.5))
+            descs.append(make_desc(old, r, dest, cfg, pick_pay(rng, r), pre=rng.random() < 0.5,
+                                   pv=wsops.provenance(rng, ("A", "B")) if rng.random() < 0.6 else None))
         for _ in range(40):     # plus a free random mix
             old, r = rng.choice(pairs)
-            descs.append(make_desc(old, r, rng.choice(DESTS), rng.choice(HANDLE_CONFIGS), rng.choice(PAYLOADS),
-                                   pre=rng.random() < 0.5))
+            descs.append(make_desc(old, r, rng.choice(DESTS), rng.choice(HANDLE_CONFIGS), pick_pay(rng, r),
+                                   pre=rng.random() < 0.5,
+                                   pv=wsops.provenance(rng, ("A", "B")) if rng.random() < 0.6 else None))
     else:
         for n, (old, r) in enumerate(pairs):
             for dest in DESTS:
                 cfgs = rng.sample(HANDLE_CONFIGS, 5) + [HANDLE_CONFIGS[0]]
                 for cfg in cfgs:
-                    descs.append(make_desc(old, r, dest, cfg, PAYLOADS[(n + len(descs)) % len(PAYLOADS)],
-                                           pre=len(descs) % 2 == 0))
+                    pl = PAYLOADS + (LINK_PAYLOADS_CLONE if r[0] == "clone" else LINK_PAYLOADS)
+                    descs.append(make_desc(old, r, dest, cfg, pl[(n + len(descs)) % len(pl)],
+                                           pre=len(descs) % 2 == 0,
+                                           pv=wsops.provenance(rng, ("A", "B")) if rng.random() < 0.5 else None))
     seen, out = set(), []
     for d in descs:
         key = json.dumps(d, sort_keys=True)
@@ -277,8 +301,11 @@ def pay_ops(h, pay):
     ops = []
     if pay["doc"]:
         ops.append((0, ["DocReset", h, typed(pay["doc"])]))
-    for rel, hexdata in pay["files"]:
-        ops.append((0, ["WriteFile", h, rel, hexdata]))
+    for ent in pay["files"]:
+        if len(ent) == 2:
+            ops.append((0, ["WriteFile", h, ent[0], ent[1]]))
+        else:
+            ops.append((0, ["Link", h, ent[0], ent[1], ent[2], ent[3]]))
     return ops
 
 
@@ -361,6 +388,9 @@ def build_script(desc, calc_id):
         if x is not None:
             ops.append((0, ["Init", x, False]))
     ops.append((70, ["Tree"]))
+    if cl is not None and desc["pay"]["files"]:
+        ent = desc["pay"]["files"][-1]
+        ops += [(72, ["ViaAppend", cl, ent[0], "21", ent[1] + "21"]), (73, ["Tree"])]
     if tw is not None:
         ops.append((42, ["OpenId", sid, oid]))
     return ops
@@ -379,7 +409,7 @@ def coq_route(L, r):
 
 
 def coq_pay(L, pay):
-    files = [f"({L.path(rel)}, {L.bytes_(bytes.fromhex(h))})" for rel, h in pay["files"]]
+    files = [f"({L.path(ent[0])}, {L.bytes_(bytes.fromhex(ent[1]))})" for ent in pay["files"]]
     return f"(mkPay {L.json(pay['doc'])} {coq_list(files, '(path * list N)')})"
 
 
@@ -389,15 +419,20 @@ def run_case(desc):
     L = wsops.Lit()
     script = build_script(desc, calc_id)
     outs, log = [], []
+    import os
+    cwd0 = os.getcwd()
     with scratch_dir("c04") as d:
-        W = wsops.World(d)
+      try:
+        W = wsops.provenance_world(d, desc["pv"]) if desc.get("pv") else wsops.World(d)
         for tag, op in script:
-            if op[0] in ("Sp", "Cached", "Repr", "IdPath", "Doc", "Init", "Copy") and op[1] >= len(W.handles):
+            if op[0] in ("Sp", "Cached", "Repr", "IdPath", "Doc", "Init", "Copy", "ViaAppend") and op[1] >= len(W.handles):
                 out = ["exn", "EOther"]      # the handle the script expects does not exist
             else:
                 out = W.run(op)
             outs.append(wsops.coq_oval(L, out))
             log.append([tag, op, out if out[0] != "tree" else ["tree", len(out[1])]])
+      finally:
+        os.chdir(cwd0)      # before the scratch directory is removed
     inp = "(mkIn4 %s %s %s %s %s %s %s %s %s %s %s)" % (
         L.json(untyped(desc["old"])), coq_pay(L, desc["pay"]), desc["prov"], coq_bool(desc["access"]),
         coq_nat(desc["shallow"]), coq_bool(desc["deep"]), coq_bool(desc["pickle"]), coq_route(L, desc["route"]),
@@ -430,4 +465,4 @@ def search(desc):
         out.append({**base, "dest": dest})
     out.append({**desc, "pay": PAYLOADS[0]})
     return [make_desc(untyped(o["old"]), o["route"], o["dest"],
-                      (o["prov"], o["access"], o["shallow"], o["deep"], o["pickle"]), o["pay"], o.get("pre", False)) for o in out]
+                      (o["prov"], o["access"], o["shallow"], o["deep"], o["pickle"]), o["pay"], o.get("pre", False), o.get("pv")) for o in out]
